@@ -253,3 +253,50 @@ Example C04_take_witness :
   outs_of _ _ 0 t = [[Some 10%Z]; [Some 11%Z; None]; []]
   /\ outs_of _ _ 1 t = [[Some 20%Z]; [Some 21%Z; None]; []].
 Proof. exact take_witness. Qed.
+
+(* ---- a second program at the rows of the table: ops.skip (Ops/ClosureSkip.v) --------------
+   [prog_skip count] models reactivex/operators/_skip.py in the same store format; both concrete
+   programs are run against the real operators on generated histories of overlapping
+   subscriptions (family closure_progs of harness/props/C04.py, through [run_prog]) *)
+From RxVerif Require Import Ops.ClosureSkip.
+
+Example C04_skip_described :
+  forall count,
+    described_by unit Z (list (option Z)) Z (prog_skip count)
+      (fcells (rows_of "ops.skip" alloc_table)) (acells (rows_of "ops.skip" alloc_table)).
+Proof. exact skip_described. Qed.
+
+Theorem C04_skip_resubscribe :
+  forall count h st t,
+    exec_shared _ _ _ _ _ _ (prog_skip count) (init_shared _ _ _ _ _ _ (prog_skip count)) h = (st, t) ->
+    forall j1 j2 k s1 s2,
+      nth_error (s_subs _ _ _ _ st) j1 = Some (k, s1) ->
+      nth_error (s_subs _ _ _ _ st) j2 = Some (k, s2) ->
+      ins_of _ _ j1 t = ins_of _ _ j2 t -> outs_of _ _ j1 t = outs_of _ _ j2 t.
+Proof. exact skip_resubscribe. Qed.
+Print Assumptions C04_skip_resubscribe.
+
+Example C04_skip_witness :
+  let h := [EApply tt; ESub 0; ERun 0 10%Z; ESub 0; ERun 1 20%Z; ERun 0 11%Z; ERun 1 21%Z; ERun 0 12%Z] in
+  let t := trace_shared _ _ _ _ _ _ (prog_skip 1) h in
+  outs_of _ _ 0 t = [[]; [Some 11%Z]; [Some 12%Z]]
+  /\ outs_of _ _ 1 t = [[]; [Some 21%Z]].
+Proof. exact skip_witness. Qed.
+
+(* what one subscription alone emits, in closed form: every subscription of a fresh skip(count)
+   emits the inputs after the first count; of a fresh take(count), count >= 1, the first count
+   inputs and the completion exactly when count inputs have arrived *)
+Theorem C04_skip_iso_closed :
+  forall count ins,
+    List.concat (iso _ _ _ _ _ _ (prog_skip count) tt ins)
+    = map Some (RxVerif.Base.Prelude.zskip count ins).
+Proof. exact skip_iso_closed. Qed.
+Print Assumptions C04_skip_iso_closed.
+
+Theorem C04_take_iso_closed :
+  forall count ins, (0 < count)%Z ->
+    List.concat (iso _ _ _ _ _ _ (prog_take count) tt ins)
+    = map Some (RxVerif.Base.Prelude.ztake count ins)
+      ++ (if (Z.of_nat (List.length ins) >=? count)%Z then [None] else []).
+Proof. exact take_iso_closed. Qed.
+Print Assumptions C04_take_iso_closed.
